@@ -142,6 +142,8 @@ def model_invalid(case, prog, pred):
     return True
   except refsem.Unsupported:
     return None
+  except (TypeError, ValueError, KeyError, IndexError, AttributeError):
+    return None      # the model is run on one all-ones row: a value of another kind than the operation expects is not a verdict on the program
 
 
 def text_corruptions(text):
